@@ -46,7 +46,7 @@ type byzMut struct {
 var byzClasses = []string{"ROWS tok", "ROWS schema", "PREPARED schema", "SUPPORTED", "READY", "PREPARED", "ERROR(", "VOID", "ROWS(local)", "ROWS(peers)", "EVENT",
 	"AUTHENTICATE", "AUTH_SUCCESS", "SET_KEYSPACE", "ROWS(schema_version)", "ANY"}
 
-const byzMutKinds = 16
+const byzMutKinds = 17
 
 // panicSite extracts the first driver function below the panic from a stack dump.
 func panicSite(stack string) string {
@@ -141,6 +141,29 @@ func runByz(e *Env) {
 		// would freeze the bubble: one caller, no events, so the fetches follow one another)
 		tokenAware = true
 		nTasks = 1
+		// the ring's partitioner and the node's tokens are what system.local says they are
+		part := tp.Weighted([]int{4, 3, 2, 1})
+		cl.Partitioner = []string{"org.apache.cassandra.dht.Murmur3Partitioner", "org.apache.cassandra.dht.RandomPartitioner",
+			"org.apache.cassandra.dht.ByteOrderedPartitioner", "com.example.UnheardOfPartitioner"}[part]
+		var toks []string
+		for i := 1 + tp.Next(4); i > 0; i-- {
+			tok := ""
+			switch part {
+			case 0, 3:
+				tok = fmt.Sprintf("%d", int64(tp.Next(1<<30))<<33-int64(tp.Next(2))<<63)
+			case 1:
+				tok = fmt.Sprintf("%d%018d", tp.Next(1<<30), tp.Next(1<<30))
+			case 2:
+				tok = fmt.Sprintf("%08x", tp.Next(1<<30))
+			}
+			if !e.NoFaults && tp.Chance(1, 4) {
+				tok = []string{"", "0x1f", "12a", "-", "99999999999999999999999999999999999999999999", " 5", "1e3", "\x00"}[tp.Next(8)]
+				k.Fault("byz.malformed-token")
+			}
+			toks = append(toks, tok)
+		}
+		cl.Hosts[0].Tokens = toks
+		e.Note("partitioner", part)
 	}
 	// a wrong-kind SCHEMA_CHANGE result legitimately makes the driver wait for schema
 	// agreement for up to this long; keep it short so that bounds stay tight
@@ -849,6 +872,21 @@ func byzMutate(tp *kernel.Tape, sc *node.SConn, kind int, frame []byte) (out []b
 		b = append(b, 0, 0, 0, 0)
 		setLen(b, int32(len(b)-hs))
 		return b, false, desc
+	case 16: // the header laid out as another protocol generation lays it out (8 bytes with a one-byte stream id before v3, 9 bytes with two from v3 on), stream ids at the edges of both ranges
+		orig := int(int8(f[2]))
+		if hs == 9 {
+			orig = int(int16(binary.BigEndian.Uint16(f[2:])))
+		}
+		var b []byte
+		if hs == 9 {
+			v := []int{orig, 127, -128, 0, -1}[tp.Next(5)]
+			b = []byte{[]byte{0x81, 0x82}[tp.Next(2)], f[1], byte(int8(v)), f[4]}
+		} else {
+			v := []int{orig, 128, 127, 129, 255, 256, 32767, -32768, -1}[tp.Next(9)]
+			b = []byte{[]byte{0x83, 0x84, 0x85}[tp.Next(3)], f[1], byte(uint16(int16(v)) >> 8), byte(v), f[3]}
+		}
+		b = append(b, f[hs-4:]...)
+		return b, false, "foreign-header"
 	default: // garbage body behind a plausible header
 		for i := hs; i < len(f); i++ {
 			f[i] = byte(tp.Next(256))
